@@ -184,9 +184,14 @@ def cacheStep (st : DState) (op : String) (f : List Text) : Option (DState × St
     some (st, tf (Spec.LatestSpec.acceptable (ip == ['T']) tagO rows ansO))
   | "q.reset", [] => some ({ st with claim := Claim.init {} 0 }, "ok")
   | "q.tick", [d] => some ({ st with claim := Claim.step st.claim (.tick (intOfText d).toNat) }, "ok")
-  | "q.start", [c, _, reg, name] =>
-    let σ' := Claim.step st.claim (.start (intOfText c).toNat ⟨reg, name⟩)
-    some ({ st with claim := σ' }, if σ'.wins.length > st.claim.wins.length then "T" else "P")
+  | "q.enter", [c, _, reg, name] =>
+    some ({ st with claim := Claim.step st.claim (.enter (intOfText c).toNat ⟨reg, name⟩) }, "P")
+  | "q.update", [c] =>
+    let cn := (intOfText c).toNat
+    if (st.claim.entered.find? (·.1 == cn)).isNone then some (st, "nop")
+    else
+      let σ' := Claim.step st.claim (.update cn)
+      some ({ st with claim := σ' }, if σ'.wins.length > st.claim.wins.length then "T" else "P")
   | "q.insert", [c] =>
     let cn := (intOfText c).toNat
     if (st.claim.pending.find? (·.1 == cn)).isNone then some (st, "nop")
@@ -195,8 +200,11 @@ def cacheStep (st : DState) (op : String) (f : List Text) : Option (DState × St
       some ({ st with claim := σ' }, if σ'.wins.length > st.claim.wins.length then "T" else "F")
   | "q.busy", [c] =>
     let cn := (intOfText c).toNat
-    if (st.claim.pending.find? (·.1 == cn)).isNone then some (st, "nop")
-    else some ({ st with claim := Claim.step st.claim (.busy cn) }, "E:db")
+    if (st.claim.pending.find? (·.1 == cn)).isSome then
+      some ({ st with claim := Claim.step st.claim (.busy cn) }, "E:db")
+    else if (st.claim.entered.find? (·.1 == cn)).isSome then
+      some ({ st with claim := Claim.step st.claim (.die cn) }, "E:db")
+    else some (st, "nop")
   | "q.atomic", [c, _, reg, name] =>
     let σ' := Claim.step st.claim (.startAtomic (intOfText c).toNat ⟨reg, name⟩)
     some ({ st with claim := σ' }, if σ'.wins.length > st.claim.wins.length then "T" else "F")
